@@ -48,6 +48,15 @@ def run(ctx, rep):
     rep.rule("R8.6", "every nanmin/nanmax in the selection routine is guarded by a test that the same operand has a defined entry (otherwise an IndexError escapes)")
     from .c03 import check_nan_reductions
     check_nan_reductions(ctx, rep, "R8.6")
+    from ..report import Renamed
+    rep.rule("R8.7", "NaN constraint values stay visible in the violation, so that a result with undefined constraints is never labelled feasible/successful (see C02 R2.6)")
+    from . import c02
+    c02.r26(ctx, Renamed(rep, to="R8.7"))
+    rep.rule("R8.8", "no condition of the preprocessing tests the same operand twice; scaling requires finite lower and upper bounds (see C10)")
+    from . import common
+    common.check_duplicate_operands(ctx, rep, "R8.8", ["cobyqa.problem:Problem.__init__", "cobyqa.problem:BoundConstraints.__init__", "cobyqa.problem:LinearConstraints.__init__", "cobyqa.main:minimize"])
+    from . import c10
+    c10.run(ctx, Renamed(rep, to="R8.8"), r1="R8.8", only_transform=True)
 
 
 def r81(ctx, rep):
